@@ -7,12 +7,12 @@ TECH = "deterministic simulation with fault injection (seeded schedules/faults, 
 # property -> (claimed?, level category, level text, level note, design ref)
 CLAIMED = {
  "C02": ("exploration",
-   "Seeded cluster executions of real nodes with a drawn stabilisation time: before it arbitrary loss/duplication/delay/partitions/stalls/crashes (<20% of stake) and <20%-stake Byzantine validators, after it no loss and delays <= 100 ms. Bounded liveness is then demanded: every live correct node's finalized slot advances within every interval of B = 2*DELTA_STANDSTILL + 4*(DELTA_TIMEOUT+4*DELTA_BLOCK); in windows of correct live leaders that start >= 2 s after stabilisation with all live nodes caught up (and dissemination guaranteed), every proposed block is finalized everywhere and not skipped; in the lockstep configuration (equal stakes, constant latency) every such block gets a fast-finalization certificate. A fault-free variant runs with no relaxation.",
+   "Seeded cluster executions of real nodes with a drawn stabilisation time: before it arbitrary loss/duplication/delay/partitions/stalls/crashes (<20% of stake) and <20%-stake Byzantine validators, after it no loss and delays <= 100 ms. Bounded liveness is then demanded: every live correct node's finalized slot advances within every interval of B = 2*DELTA_STANDSTILL + 4*(DELTA_TIMEOUT+4*DELTA_BLOCK); in windows of correct live leaders that start >= 2 s after stabilisation with all live nodes caught up (and dissemination guaranteed), every proposed block is finalized everywhere and not skipped; in the lockstep configuration (equal stakes, constant latency) every such block gets a fast-finalization certificate. A fault-free variant runs with no relaxation. A solo-node variant checks the node-local form: one real node among validators that all follow the protocol (blocks on the chain, delivered on time or up to 300 ms early; votes on time or up to 500 ms slow) must never cast a skip or fallback vote and must notarize every block within one block time of the instant the block, its previous vote or a ready parent had reached it, and vote to finalize it, unless the others had already finalized the slot. Post-stabilisation delays cover the whole range up to DELTA (250 ms); Byzantine leaders include one that hands the next leader a block nobody else gets.",
    "Liveness is only demanded after stabilisation and only under the measured preconditions listed above; the fast-finalization demand is restricted to the lockstep configuration because with skewed stakes or jitter a 60% coalition can legitimately complete the two-round path first (DESIGN §7 C02). N <= 7.",
    "DESIGN.md §7 C02"),
  "C05": ("exploration",
    "Cluster monitor: in seeded executions with faults, partitions and <20%-stake Byzantine equivocating voters/leaders (several blocks per slot, blocks before parents, delayed certificates), every vote each correct node broadcasts is replayed in broadcast order against the voting rules: never a slashable combination with its own earlier votes, finalize only after notarizing and only for a block with a notarization certificate, fallback votes only after an initial vote and only once the stake they require had been voted anywhere, notar only for a block whose parent is the block notarized in the preceding slot or, in a window's first slot, a certified skip-connected parent. Solo-node world: one real node in a fully scripted adversarial environment (all other validators are puppets; several blocks per slot, children before parents, drawn arrival times of votes and certificates), where the oracle knows exactly what had reached the node at each instant and checks every clause in its per-node causal form.",
-   "In the cluster world, conditions that depend on what had reached the node (safe-to-notar/skip held, parent announced ready) are checked in their necessary form against everything on the wire by then (sound, weaker); the exact per-node form is checked only in the solo-node world, whose scripted environments are cut at the instant they leave the <20% premise (pool safety assertion) and ignore slots beyond the scripted horizon.",
+   "In the cluster world, conditions that depend on what had reached the node (safe-to-notar/skip held, parent announced ready) are checked in their necessary form against everything on the wire by then (sound, weaker); the exact per-node form is checked only in the solo-node world, whose scripted environments are cut at the instant they leave the <20% premise (pool safety assertion) and ignore slots beyond the scripted horizon; blocks the node may have learnt through repair (puppets answer repair requests with real responders) count as known from the instant the first response about them left a puppet (an earlier bound than the truth).",
    "DESIGN.md §7 C05, §15"),
  "C09": ("exploration",
    "Forged votes and certificates (chains of 1-3 structured mutations of valid messages, signer subsets just below/at/above the thresholds, mixed certificates with a signer in both halves) are offered on the wire to ValidatedVote/ValidatedCert::try_new and compared with an independent verdict (signature bytes equal the honest signature/aggregation of exactly the named signers over exactly this kind/slot/hash; bitmask length; distinct stake vs threshold, ignoring the declared stake); the cluster variant injects the same forgeries at real nodes and validates every certificate a correct node re-broadcasts.",
